@@ -59,6 +59,10 @@ def gen(rng, n):
                     nodes.append(['d', lay.top2(vv) + '/info', 0o700])
         if not hf and rng.random() < 0.2:
             env_extra['TRASH_ENABLE_HOME_FALLBACK'] = '1'       # the variable alone enables nothing: the option is needed as well
+        if lay.top[v][0] == 'sticky' and rng.random() < 0.25:
+            # the user's own directory inside a proper $topdir/.Trash is a symbolic link to a directory of the same volume (the
+            # administrator keeps the users' trashes elsewhere on the disk): the checks are about $topdir/.Trash, the entry goes there
+            nodes += [['d', scen.Layout.j(v, 'trashes/u%d' % lay.uid), 0o700], ['l', lay.top1(v), scen.Layout.j(v, 'trashes/u%d' % lay.uid)]]
         td_opt = None
         if rng.random() < 0.12:
             td_opt = rng.choice([scen.Layout.j(v, 'mytrash'), lay.home + '/mytrash'])
